@@ -184,6 +184,20 @@ func (e *Env) apply(f *Fault) {
 		s := f.Server % len(c.Servers)
 		c.Servers[s].Silent = true
 		desc = fmt.Sprintf("silent rs%d", s)
+	case "flaky":
+		s := f.Server % len(c.Servers)
+		c.Servers[s].Flaky = true
+		desc = fmt.Sprintf("flaky rs%d", s)
+	case "down":
+		// the server goes away and nothing replaces it (meta / zk keep pointing to it)
+		s := f.Server % len(c.Servers)
+		c.Servers[s].Up = false
+		for _, cn := range e.Conns {
+			if cn.Srv.Idx == s {
+				cn.Reset("server went down", io.EOF)
+			}
+		}
+		desc = fmt.Sprintf("down rs%d", s)
 	case "unsilent":
 		s := f.Server % len(c.Servers)
 		c.Servers[s].Silent = false
@@ -242,6 +256,7 @@ func (e *Env) Heal() {
 	c.Rules = nil
 	for _, s := range c.Servers {
 		s.Silent = false
+		s.Flaky = false
 		s.Aborted = ""
 		if !s.Up {
 			c.Restart(s.Idx)
